@@ -592,6 +592,10 @@ class Gen:
                     op["dst_strata"] = self.random_filter(f[3])
             elif k == "agg":
                 op["sources"] = r.sample(names, r.randint(1, min(3, len(names))))
+                # a source may be listed more than once (it then counts as often as it is listed); decided without drawing a random number
+                if (len(names) + len(op["sources"])) % 4 == 0:
+                    op["sources"] = op["sources"] + [op["sources"][0]]
+                    self.count("req:agg:repeated_source")
             elif k == "cum":
                 op["source"] = r.choice(names)
                 z = r.random()
